@@ -201,7 +201,7 @@ func envInt(name string, def int) int {
 func RunCheck(p *Property, tier string) int {
 	start := time.Now()
 	nsh := envInt("VERIF_SHARDS", 16)
-	budget := 150
+	budget := 900
 	if tier == "thorough" {
 		budget = 3600
 	}
